@@ -235,6 +235,8 @@ structure SoftInv where
   none of its own) and `restart_duration` -/
   imposedFix : Option Nat := none
   imposedRestart : Option Nat := none
+  /-- options that have a SECOND source outside the entry (`outerSources`): the value the running software ends up with -/
+  effective : Assoc String (Option String) := []
 deriving DecidableEq, Repr
 
 structure UserInv where
@@ -780,6 +782,34 @@ def enableNic (p : Power) (c : Nic) : Nic := if p = .on ∧ c.wired then { c wit
 link yet at that point, so nothing is enabled — kept because the loader does it). -/
 def powerOnNics (p : Power) (nics : List Nic) : List Nic := if p = .on then nics.map (enableNic p) else nics
 
+/-! ### options with two configuration sources
+
+(software, option, outer source): the option of a software entry that ALSO has a source outside the entry. Regenerated as
+`Gen.Config.optionOuterSources` from the `install()` hooks of the software classes. (The other two-source settings of the format
+are not software options and live elsewhere in the model: a service's `fixing_duration` vs `defaults.service_fix_duration`
+(`svcReq.imposedFix`), node durations vs `defaults.node_*_duration` (`buildNode`), folder durations (defaults only), a node set's
+template vs the defaults section (`buildNodeSets` uses no defaults).) -/
+def outerSources : List (String × String × String) := [("dns-client", "dns_server", "self.parent.dns_server")]
+
+/-- `DNSClient.install()`: `if self.parent and not self.dns_server: self.config.dns_server = self.parent.dns_server` — the
+entry's own option stays, the node-level key is used when the entry gives none -/
+def hookOuter (inner outer : Option String) : Option String := if inner.isSome then inner else outer
+
+/-- the install hooks of a node's software, applied to what the walker reads -/
+def applyOuter (n : NodeCfg) (sw : SoftInv) : SoftInv :=
+  if sw.name = "dns-client" then
+    { sw with effective := [("dns_server", hookOuter ((alookup "dns_server" sw.opts).join) (n.dns.map showIp))] }
+  else sw
+
+/-- PRECEDENCE as the documentation states it (dns_client.rst, "Via Configuration"): the value the entry gives, else the node's
+`dns_server`, else none -/
+def declaredOuter (n : NodeCfg) (sw : SoftInv) : SoftInv :=
+  if sw.name = "dns-client" then
+    { sw with effective := [("dns_server", match (alookup "dns_server" sw.opts).join with
+                                           | some v => some v
+                                           | none => n.dns.map showIp)] }
+  else sw
+
 /-- is `f` a registered airspace frequency (`AirSpaceFrequency._registry[f]`)? -/
 def knownFrequency (f : String) : Bool := frequencies.any (·.1 = f)
 
@@ -796,7 +826,7 @@ def buildNode (d : DefaultsCfg) (n : NodeCfg) : Except Err NodeInv :=
       dns := n.dns, gateway := n.gateway, nics := powerOnNics p nics, acls := acls,
       routes := if net then n.routes.map routeOf else [],
       defaultRoute := if net then n.defaultRoute else none,
-      software := softInventory (powerOnSoftware p (installedAfter (installAll d p n.kind n))),
+      software := (softInventory (powerOnSoftware p (installedAfter (installAll d p n.kind n)))).map (applyOuter n),
       users := if n.kind = .switch then [] else buildUsers n,
       folders := if net then [] else buildFolders n }
   match n.kind with
@@ -1050,7 +1080,7 @@ def declaredNode (d : DefaultsCfg) (n : NodeCfg) : NodeInv :=
       | _ => [],
     routes := if net then n.routes.map routeOf else [],
     defaultRoute := if net then n.defaultRoute else none,
-    software := declaredSoftware d (n.power.getD .on) n.kind n,
+    software := (declaredSoftware d (n.power.getD .on) n.kind n).map (declaredOuter n),
     users := if n.kind = .switch then [] else declaredUsers n,
     folders := if net then [] else n.folders }
 
@@ -1142,7 +1172,7 @@ def specNics (m : Assoc Nat IfCfg) : List Nic :=
 def specNode (d : DefaultsCfg) (n : NodeCfg) : NodeInv :=
   let base := declaredNode d n
   { base with
-    software := specSoftware d (n.power.getD .on) n.kind n,
+    software := (specSoftware d (n.power.getD .on) n.kind n).map (declaredOuter n),
     nics := match n.kind with
       | .computer | .server | .printer => { name := none, ip := n.ip, mask := some (n.mask.getD defaultMask) } :: specNics n.nics
       | _ => base.nics }
